@@ -449,6 +449,10 @@ def gen_program_x86(rng, feat, bits=32):
 
     n = rng.randint(3, 14)
     main = body(n, free, 0)
+    if "rep_sure" in feat and bits == 32:
+        snippet = ["MOV ESI, 0x%x" % (D0 + rng.choice([0, 4, 0x20])), "MOV EDI, 0x%x" % (rng.choice([D0 + 0x100, D1 - 3, D1 + 0x10])),
+                   "MOV ECX, %d" % rng.randint(1, 6), "CLD", rng.choice(["REP MOVSB", "REP STOSB", "REP MOVSD"])]
+        main = (snippet + main) if rng.random() < 0.5 else (main + snippet)
     if "smc" in feat:
         # code cells: MOV reg, imm32 whose immediate guest stores overwrite, then log
         ncell = rng.randint(2, 5)
@@ -1047,7 +1051,8 @@ class TestRun(object):
             self.log.add(" act perm", hex(page), a[3] % 3)
         elif k == "mbp":
             # memory breakpoint: ["mbp", where, size, access(1 read, 2 write, 3 both)]
-            spots = [D0, D0 + 0x8, D0 + 0x21, D0 + 0x40, D1 + 0x4, D1 - 1, D1 + 0x7c, D0 + 0x200, STACK_BASE + STACK_SIZE - 8]
+            spots = [D0, D0 + 0x8, D0 + 0x21, D0 + 0x40, D1 + 0x4, D1 - 1, D1 + 0x7c, D0 + 0x200, STACK_BASE + STACK_SIZE - 8,
+                     D0 + 0x100, D0 + 0x4, D1 + 0x10, D0 + 0x20]
             addr = spots[a[2] % len(spots)]
             size = [1, 2, 4, 8][a[3] % 4]
             access = [1, 2, 3][a[4] % 3]
